@@ -1,5 +1,6 @@
 """C09 - Unit conversion is invertible, precedence-correct and working-unit independent."""
 import json
+import math
 import os
 import subprocess
 import sys
@@ -497,6 +498,8 @@ def _next_choice(cur, step):
 
 
 def _close(got, exp, tol):
+    if isinstance(exp, float):           # scalar fast path (numpy.float64 is a float)
+        return bool(math.isfinite(got) and abs(got - exp) <= tol * abs(exp))
     return bool(np.all(np.isfinite(got)) and np.all(np.abs(got - exp) <= tol * np.abs(exp)))
 
 
